@@ -69,10 +69,16 @@ def kind_matrix(clause, name):
         else:
             ent.derived.append(Derived('a_' + k, t1, x, redeclares=(owner, 'a_' + k)))
 
-    for k, _t0, _o0, t1, o1, x in KINDS:
+    for n, (k, _t0, _o0, t1, o1, x) in enumerate(KINDS):
         e = Entity('r_' + k, supers=['h'])
         redecl(e, 'h', k, t1, o1, x)
         e.attrs.append(Attr('own_' + k, INT(), True))
+        # UNIQUE over the re-declared attribute (every other kind; alternately alone / jointly with the own attribute,
+        # labelled / unlabelled): the flag belongs to the descriptor of the RE-DECLARATION in r_<k>, h's stays not unique
+        if n % 2 == 0:
+            e.unique.append(('u_' + k if n % 4 == 0 else None, ['a_' + k] + (['own_' + k] if n % 3 == 0 else [])))
+        else:
+            e.unique.append((None if n % 4 == 1 else 'u_' + k, ['own_' + k]))
         s.entities.append(e)
     kd = dict((k[0], k) for k in KINDS)
     # attribute of a grand-supertype, re-declared two levels down (in-place aggregate, entity, simple)
@@ -87,6 +93,7 @@ def kind_matrix(clause, name):
     for k in ('arr', 'deft', 'list', 'enum', 'bool'):
         redecl(e, 'h', k, kd[k][3], kd[k][4], kd[k][5])
     e.attrs.append(Attr('last', INT(), True))
+    e.unique += [('um', ['a_deft', 'first']), (None, ['a_list']), ('um2', ['tail', 'last'])]
     s.entities.append(e)
     if clause == 'explicit':
         # a re-declaration re-declared again one level further down (explicit, then explicit; explicit, then derived)
